@@ -1,0 +1,55 @@
+//! The clock of the storage layer: every decision that concerns expiry (is this value expired, what
+//! deadline does this TTL give, how much time is left, what does the sweeper collect) reads `now()`
+//! instead of `Instant::now()`.
+//!
+//! A script (EVAL / EVALSHA) and a transaction (EXEC) are ONE step: while one runs the clock is frozen
+//! at its start (`freeze()`), so every command inside sees the same liveness of every key, deadlines
+//! set inside are "start + ttl", TTL / PTTL inside are measured from the start, and the sweeper and the
+//! snapshot thread - which read the same clock - cannot expire a key in the middle of it. There is one
+//! command thread, so one process-wide value is enough. The guard is re-entrant: only the outermost
+//! `freeze()` sets the instant and only its drop releases it (EVAL inside EXEC).
+//!
+//! Anything that must measure real elapsed time (the script time limit, latency, `created_at`) keeps
+//! using `Instant::now()`.
+
+use std::sync::atomic::{AtomicU64, AtomicUsize, Ordering};
+use std::time::{Duration, Instant};
+
+lazy_static::lazy_static! {
+    /// origin of the frozen instant's representation
+    static ref BASE: Instant = Instant::now();
+}
+
+static DEPTH: AtomicUsize = AtomicUsize::new(0);
+static FROZEN_NANOS: AtomicU64 = AtomicU64::new(0);
+
+/// The current time as the storage layer sees it: the frozen instant while a script or a
+/// transaction runs, the real clock otherwise.
+pub fn now() -> Instant {
+    if DEPTH.load(Ordering::Acquire) == 0 {
+        Instant::now()
+    } else {
+        *BASE + Duration::from_nanos(FROZEN_NANOS.load(Ordering::Acquire))
+    }
+}
+
+/// Keeps the storage clock frozen while it lives.
+pub struct Freeze(());
+
+/// Freeze the storage clock at the present instant until the returned guard is dropped. Nested
+/// calls keep the instant of the outermost one.
+pub fn freeze() -> Freeze {
+    if DEPTH.load(Ordering::Acquire) == 0 {
+        let base = *BASE;
+        let nanos = Instant::now().saturating_duration_since(base).as_nanos() as u64;
+        FROZEN_NANOS.store(nanos, Ordering::Release);
+    }
+    DEPTH.fetch_add(1, Ordering::AcqRel);
+    Freeze(())
+}
+
+impl Drop for Freeze {
+    fn drop(&mut self) {
+        DEPTH.fetch_sub(1, Ordering::AcqRel);
+    }
+}
